@@ -102,7 +102,7 @@ func degenerate(m manifest.RegionMeta) bool {
 func coverage(ms []manifest.RegionMeta, skip uint64) []span {
 	var in []span
 	for _, m := range ms {
-		if m.ID == skip || degenerate(m) || m.State == manifest.RegionStateTombstone {
+		if (skip != 0 && m.ID == skip) || degenerate(m) || m.State == manifest.RegionStateTombstone {
 			continue
 		}
 		in = append(in, span{lo: m.StartKey, hi: m.EndKey, hiInf: len(m.EndKey) == 0})
